@@ -124,6 +124,37 @@ def amt_lines(chk):
     return out
 
 
+def shown_runs(chk, exe):
+    """the identifiers and header lines that `btcdeb -v --tx=.. --txin=..` prints on a terminal, for spending / funding transactions with and without witness data"""
+    import re, ptydrv, gen_spend, btc
+    from c09 import RecJob
+    rng = chk.rng
+    rec = []
+    def hdr(out, pat):
+        m = re.search(pat + r" ([0-9a-f]{64}):\s+CTransaction\(hash=([0-9a-f]{10}), ver=(-?\d+), vin.size=(\d+), vout.size=(\d+), nLockTime=(\d+)\)", out)
+        if not m: return {"id": "", "pfx": "", "ver": "", "nin": -1, "nout": -1, "lock": ""}
+        return {"id": m.group(1), "pfx": m.group(2), "ver": int(m.group(3)).to_bytes(4, "little", signed=True).hex(), "nin": int(m.group(4)), "nout": int(m.group(5)),
+                "lock": int(m.group(6)).to_bytes(4, "little").hex()}
+    k = 0
+    for typ in ("p2pkh", "p2wpkh", "p2wsh", "p2tr-key", "p2sh-p2wpkh"):
+        for fundwit in (False, True):
+            for ver, lock in ((2, 0), (0xffffffff, 0xfffffffe), (1, 499999999)):
+                if (ver != 2) and typ not in ("p2pkh", "p2wpkh"): continue
+                c = gen_spend.SpendCase(rng, typ, "valid", 1, 0, 0)
+                c.funding.version = ver; c.funding.locktime = lock
+                if fundwit:
+                    c.funding.witness = [[bytes(rng.randrange(256) for _ in range(rng.randrange(1, 40)))] for _ in c.funding.vin]
+                c.tx.vin[0].prev_txid = c.funding.txid()
+                k += 1
+                R = ptydrv.Repl([exe, "-v", "--tx=" + c.tx.hex(), "--txin=" + c.funding.hex()], timeout=15)
+                out = (R.banner + R.err.decode(errors="replace")).replace("\r", "")
+                R.close()
+                ev = {"e": "IdsShown", "kind": typ + (":fundwit" if fundwit else ""), "tx": c.tx.hex(), "txin": c.funding.hex(),
+                      "shown_tx": hdr(out, r"got (?:segwit )?transaction"), "shown_in": hdr(out, r"got input tx #-?\d+")}
+                rec.append((RecJob("IdsShown", ev), [ev]))
+    return rec
+
+
 def make_lines(chk):
     return tx_lines(chk) + amt_lines(chk)
 
@@ -131,12 +162,13 @@ def make_lines(chk):
 def run(chk):
     chk.mc("MC_TxCodec", "MC_TxCodec.cfg")
     chk.exhaustive = False
-    chk.build()
+    chk.build(mains=("btcdeb",))
     lines = make_lines(chk)
     chunk = max(50, len(lines) // 48)
     jobs = [CallJob("calls%d" % i, lines[i:i + chunk]) for i in range(0, len(lines), chunk)]
     divs = chk.validate("Trace_Calls", jobs, "c13")
     chk.evaluations = len(lines); chk.distinct = set(lines); chk.traces = len(lines)
+    divs += chk.validate_recorded("Trace_Calls", shown_runs(chk, chk.build_obj.exe("btcdeb")), "c13shown", parallel=4)
     chk.classify(divs)
     return chk.finish(rule=RULE, assumptions=ASSUME, extra={"calls": len(lines)})
 
